@@ -157,25 +157,31 @@ theorem appendDecision_append {s : Store} {m : Manifest} {cs : List Nat} {es : L
           split at h
           · cases h
           · rename_i hpm
+            have hprev : m.base > 0 → s.prevMismatch m = false := by
+              intro hpos
+              simp only [not_and] at hpm
+              have := hpm hpos
+              simpa using this
             split at h
-            · split at h <;> cases h
+            · -- sequencedFresh: appended at exactly the log end
+              rename_i hf
+              cases h
+              exact ⟨by simpa using hv, hd, by simpa using hdig, hf.2.symm, hprev⟩
             · split at h
-              · cases h
+              · split at h <;> cases h
               · split at h
                 · cases h
-                · rename_i hl1
-                  split at h
+                · split at h
                   · cases h
-                  · rename_i hl2
-                    cases h
-                    refine ⟨by simpa using hv, hd, by simpa using hdig, ?_, ?_⟩
-                    · have := validFor_last_gt (by simpa using hv : m.validFor m.base cs.length = true)
+                  · rename_i hl1
+                    split at h
+                    · cases h
+                    · rename_i hl2
+                      cases h
+                      refine ⟨by simpa using hv, hd, by simpa using hdig, ?_, hprev⟩
+                      have := validFor_last_gt (by simpa using hv : m.validFor m.base cs.length = true)
                       simp only [not_or, not_and, Nat.not_lt, Nat.not_le] at hl1 hl2 hb
                       omega
-                    · intro hpos
-                      simp only [not_and] at hpm
-                      have := hpm hpos
-                      simpa using this
 
 theorem appendDecision_already {s : Store} {m : Manifest} {cs : List Nat}
     (h : s.appendDecision m cs = .already) : m.last ≤ s.leo := by
@@ -308,7 +314,7 @@ theorem appendAll_leo (ps : List PRec) : ∀ (s next : Store) (base : Nat), base
     | conflict nf => cases e
 
 theorem filter_leo_of_byLast {l : List PRec} (h : ChainP l) (keep : Nat) (hk : (l.find? (fun p => p.m.last == keep)).isSome) :
-    (Store.mk (l.filter (fun p => p.m.last ≤ keep)) 0).leo = keep := by
+    (Store.mk (l.filter (fun p => p.m.last ≤ keep)) 0 false).leo = keep := by
   induction l with
   | nil => simp at hk
   | cons p rest ih =>
@@ -360,7 +366,7 @@ theorem replace_inv (s : Store) (e : RState) (k : Nat) (ps : List PRec) (c : Nat
                 cases h
                 have hkc := filter_le_of_chain hinv.chain k
                 refine ⟨appendAll_chain ps _ next hkc ha, ?_⟩
-                have hbase : k ≤ (Store.mk (s.props.filter (fun p => p.m.last ≤ k)) s.hw).leo := by
+                have hbase : k ≤ (Store.mk (s.props.filter (fun p => p.m.last ≤ k)) s.hw s.fresh).leo := by
                   by_cases hk0 : k = 0
                   · omega
                   · have hsome : (s.byLast k).isSome = true := by
@@ -370,8 +376,8 @@ theorem replace_inv (s : Store) (e : RState) (k : Nat) (ps : List PRec) (c : Nat
                       | none => exact absurd hb this
                       | some _ => rfl
                     have := filter_leo_of_byLast hinv.chain k hsome
-                    have e2 : (Store.mk (s.props.filter (fun p => p.m.last ≤ k)) s.hw).leo =
-                        (Store.mk (s.props.filter (fun p => p.m.last ≤ k)) 0).leo := rfl
+                    have e2 : (Store.mk (s.props.filter (fun p => p.m.last ≤ k)) s.hw s.fresh).leo =
+                        (Store.mk (s.props.filter (fun p => p.m.last ≤ k)) 0 false).leo := rfl
                     omega
                 have := appendAll_leo ps _ next k hbase (by simpa using hcb) ha
                 simp only [Nat.not_lt] at hcl
